@@ -32,6 +32,22 @@ def check_sat(assertions, timeout_ms=20000, want_model=True, fallbacks=True, tac
         return 'sat', (s.model() if want_model else None), dt, 'z3api'
     if not fallbacks:
         return 'unknown', None, dt, 'z3api'
+    # the same query under other random seeds first: non-linear queries are decided in milliseconds under one seed and
+    # time out under another, and a verdict must not depend on that luck
+    for seed in (7, 31):
+        try:
+            s2 = z3.Solver()
+            s2.set('timeout', first_budget)
+            s2.set('random_seed', seed)
+            for a in assertions:
+                s2.add(a)
+            r2 = s2.check()
+        except z3.Z3Exception:
+            continue
+        if r2 == z3.unsat:
+            return 'unsat', None, time.time() - t0, f'z3api(seed {seed})'
+        if r2 == z3.sat:
+            return 'sat', (s2.model() if want_model else None), time.time() - t0, f'z3api(seed {seed})'
     # portfolio: the SMT-LIB dump goes to cvc5 and the z3 4.8 CLI; then z3 again with the full budget
     smt = s.to_smt2()
     for backend, cmd in (('cvc5', [CVC5, '--lang=smt2', f'--tlimit={timeout_ms}'] +
